@@ -27,8 +27,14 @@ def main(argv):
         tier = "quick"
         ctx = Ctx(prop, tier, seed)
         payload = json.load(open(argv[3]))
-        ok, out = common.build_model()
-        still = mod.replay(ctx, payload)
+        with common.Lock():
+            ok, out = common.build_model()
+        try:
+            still = mod.replay(ctx, payload)
+        finally:
+            if ctx._model is not None:
+                ctx._model.close()
+            common.cleanup_run()
         if still:
             print("VIOLATION property=%s replay=%s" % (prop, argv[3]))
             return 1
@@ -41,11 +47,12 @@ def main(argv):
     build = None
     broken = []
     try:
-        build = common.coq_build(mod.PROP_FILES, clean=ctx.thorough)
+        with common.Lock():
+            build = common.coq_build(mod.PROP_FILES, clean=ctx.thorough)
+            ok, out = common.build_model()
         if not build["ok"]:
             for e in build["errors"]:
                 broken.append({"obligation": e.get("file"), "line": e.get("line"), "error": e.get("error")})
-        ok, out = common.build_model()
         if not ok:
             broken.append({"obligation": "extraction/ocaml build", "error": out})
         if ctx.thorough and build["ok"] and not os.environ.get("VERIF_NO_COQCHK"):
@@ -71,6 +78,7 @@ def main(argv):
     finally:
         if ctx._model is not None:
             ctx._model.close()
+        common.cleanup_run()
     known = [k for k in common.load_known() if k.get("property") == prop]
     lines, nviol = [], 0
     reported_known = set()
